@@ -32,12 +32,12 @@ Definition add_luid (k luid : str) (d : dict (list str)) : dict (list str) :=
   | None => dset k [luid] d
   end.
 
-Definition skip (known : option conv) (u : str) : bool :=
-  (match known with Some c => is_uri c u | None => false end) || github_issue u.
+(* [recog u]: the URI is already recognised by the converter passed to discover (converter.is_uri(u)); no converter = never *)
+Definition skip (recog : str -> bool) (u : str) : bool := recog u || github_issue u.
 
-Definition uri_prefix_to_luids (known : option conv) (delims : list str) (uris : list str) : dict (list str) :=
+Definition uri_prefix_to_luids (recog : str -> bool) (delims : list str) (uris : list str) : dict (list str) :=
   let delims := match delims with [] => default_delimiters | _ => delims end in
-  fold_left (fun d u => if skip known u then d
+  fold_left (fun d u => if skip recog u then d
                         else match classify delims u with Some (p, l) => add_luid p l d | None => d end) uris [].
 
 (* f"{i}" *)
@@ -63,10 +63,13 @@ Definition kept_prefixes (cutoff : option nat) (d : dict (list str)) : list str 
   map fst (filter (fun kv => match cutoff with None => true | Some k => Nat.leb k (length (snd kv)) end)
                   (sort_by_key fst d)).
 
-Definition discover_records (known : option conv) (delims : list str) (cutoff : option nat) (metaprefix : str)
+Definition discover_records (recog : str -> bool) (delims : list str) (cutoff : option nat) (metaprefix : str)
   (uris : list str) : list record :=
-  number_from 1 metaprefix (kept_prefixes cutoff (uri_prefix_to_luids known delims uris)).
+  number_from 1 metaprefix (kept_prefixes cutoff (uri_prefix_to_luids recog delims uris)).
 
-Definition discover known delims cutoff metaprefix uris : res conv :=
-  mk_conv true [58%N] (discover_records known delims cutoff metaprefix uris).
+Definition discover recog delims cutoff metaprefix uris : res conv :=
+  mk_conv true [58%N] (discover_records recog delims cutoff metaprefix uris).
 End D.
+(* the recogniser of an optional pre-existing converter *)
+Definition recog_of (known : option conv) : str -> bool :=
+  fun u => match known with Some c => is_uri c u | None => false end.
